@@ -51,7 +51,7 @@ def _set(xs):
 
 RANGE_FNS = [f for f in ALL_FNS if f.endswith('_over_time')]
 DEFAULTS = dict(ns=1, sb=[0, 1, 2], eb=[0, 1, 2, 3], vals=[1, 2], max=2, fns=ALL_FNS, ranges=[1, 2], steps=[1, 2, 3], evals=3, mod=1, workers=6)
-# mod: the requests of every mod-th database (content hash + seed) are enumerated; 1 = exhaustive
+# mod: the requests of every mod-th database (content hash) are enumerated; 1 = exhaustive
 CONFIGS = {
     'quick': [
         # one series, three sample buckets, <= 2 samples, every request: exhaustive
@@ -63,9 +63,9 @@ CONFIGS = {
         ('A2', dict(fns=[f for f in ALL_FNS if f not in ('sum', 'present_over_time')])),
         ('S2', dict(ns=2, sb=[0, 1], eb=[0, 1, 2], ranges=[1], steps=[1, 2])),
         # three samples (avg of avgs), three values, steps up to 60 s, ranges up to 60 s (several step buckets per window)
-        ('A3', dict(sb=[0, 1, 2, 3], eb=[0, 1, 2, 3, 4, 5], vals=[1, 2, 5], max=3, ranges=[1, 2, 4], steps=[1, 2, 3, 4], mod=24, workers=8)),
+        ('A3', dict(sb=[0, 1, 2, 3], eb=[0, 1, 2, 3, 4, 5], vals=[1, 2, 5], max=3, ranges=[1, 2, 4], steps=[1, 2, 3, 4], mod=48, workers=8)),
         # two series, three samples
-        ('S3', dict(ns=2, sb=[0, 1, 2], eb=[0, 1, 2, 3], vals=[1, 2, 5], max=3, ranges=[1, 2], steps=[1, 2, 3], mod=24, workers=8)),
+        ('S3', dict(ns=2, sb=[0, 1, 2], eb=[0, 1, 2, 3], vals=[1, 2, 5], max=3, ranges=[1, 2], steps=[1, 2, 3], mod=48, workers=8)),
         # the lookback edge: samples 5 min before the evaluation times
         ('L2', dict(sb=[0, 1, 20, 21], eb=[19, 20, 21, 22], fns=['', 'sum', 'last_over_time', 'sum_over_time'], ranges=[1, 20], steps=[1, 2, 3], workers=8)),
     ],
@@ -78,18 +78,22 @@ def _model_check(name, c, sd, timeout):
     d = dict(DEFAULTS)
     d.update(c)
     bounds = {k: v for k, v in d.items() if k != 'workers'}
-    d['seed'] = vlib.seed() % max(1, d['mod'])
+    # the sampled configurations enumerate a FIXED subset of the databases (content hash % mod = 0): the set of as-coded
+    # signatures must not depend on the seed (rare quirk combinations occur in a handful of cases only); the seed varies the
+    # concretisation (time base, metric / label names, fingerprints, insertion order and block split)
+    d['seed'] = 0
     for k in ('sb', 'eb', 'vals', 'fns', 'ranges', 'steps'):
         d[k] = _set(d[k])
     cfgp = os.path.join(sd, 'MC_PromDown_%s.cfg' % name)
     open(cfgp, 'w').write(CFG % d)
-    res = vlib.tlc(SPECDIR, 'MC_PromDown.tla', os.path.basename(cfgp), workers=d['workers'], timeout=timeout, copy_extra=[cfgp])
+    res = vlib.tlc(SPECDIR, 'MC_PromDown.tla', os.path.basename(cfgp), workers=d['workers'], timeout=timeout, copy_extra=[cfgp], heap='3g')
     try:
         if res['violated']:
             raise vlib.Infra('TLC reports %s on PromDown.tla (config %s): the specification is inconsistent with itself (Mech({}) # Def or '
                              'an unexplained as-coded answer); nothing was run against the code:\n%s' % (res['violated'], name, res['out'][-2500:]))
         if not res.get('finished') or 'Model checking completed' not in res['out']:
-            raise vlib.Infra('TLC did not finish config %s: %s' % (name, res['out'][-1500:]))
+            tail = '\n'.join(l for l in res['out'].splitlines()[-400:] if not l.startswith('<<"X08CASE"'))
+            raise vlib.Infra('TLC did not finish config %s (exit code %s; 137 = killed, e.g. by the OOM killer): %s' % (name, res.get('rc'), tail[-1500:]))
         cases, fired, fns = [], {}, {}
         for line in res['out'].splitlines():
             m = _CASE.match(line)
